@@ -114,4 +114,9 @@ class State:
             if not cond:
                 self.pc.append(z3.BoolVal(False))
             return
+        # conjunctions are flattened so that the quantifier-free conjuncts stay usable for path pruning
+        if z3.is_and(cond):
+            for c in cond.children():
+                self.assume(c)
+            return
         self.pc.append(cond)
